@@ -146,6 +146,12 @@ pub fn table(th: bool) -> Vec<String> {
         .iter()
         .map(|(_, plain, prefixed)| {
             let text = if cfg!(feature = "ic") { plain } else { prefixed };
+            if !cfg!(feature = "ic") {
+                // handle the spelling without prefixes first, as a user migrating rules would
+                if let Ok(r) = eng::load(plain) {
+                    let _ = eng::optimise_with(&r, eng::SW_DEFAULT, &[]);
+                }
+            }
             match eng::load(text) {
                 Ok(r) => {
                     let bits: String = ds
@@ -157,7 +163,19 @@ pub fn table(th: bool) -> Vec<String> {
                             Err(_) => 'P',
                         })
                         .collect();
-                    format!("L{}", bits)
+                    // verdicts of the optimised rule (truth only)
+                    let obits: String = match eng::optimise_with(&r, eng::SW_DEFAULT, &[]) {
+                        Ok((o, _)) => ds
+                            .iter()
+                            .map(|d| match eng::matches(&o, d) {
+                                Ok(true) => 't',
+                                Ok(false) => 'f',
+                                Err(_) => 'p',
+                            })
+                            .collect(),
+                        Err(_) => "p".into(),
+                    };
+                    format!("L{}{}", bits, obits)
                 }
                 Err(eng::LoadErr::Err(_)) => "E".to_string(),
                 Err(eng::LoadErr::Panic(_)) => "P".to_string(),
@@ -233,7 +251,7 @@ pub fn run(tier: Tier) -> i32 {
                 format!("load-outcome-differs:ignore_case={},default+i={}", &a[..1], &b[..1])
             } else {
                 let k = a.chars().zip(b.chars()).position(|(x, y)| x != y).unwrap_or(0);
-                let d = if k >= 1 && k - 1 < ds.len() { ds[k - 1].show() } else { "?".into() };
+                let d = if k >= 1 { ds[(k - 1) % ds.len()].show() } else { "?".into() };
                 format!("verdict-differs:ignore_case={},default+i={} on {}", a.chars().nth(k).unwrap_or('?'), b.chars().nth(k).unwrap_or('?'), d)
             };
             // signature: first word of the kind + key modifier of the rule
